@@ -32,11 +32,12 @@ REQUIRED = {
             "timing-checked": 2000, "overrun-catchup": 30, "mode-string-checked": 2000, "teleop-in-auto-iteration": 100,
             "inherited-robot-class": 50, "fault-in-iteration-body-swallowed": 20, "statemachine-component": 100,
             "robot-without-some-mode-hooks": 100, "falsy-mode-object-active": 10, "mode-chosen-by-auto-selector-string": 50,
-            "falsy-component": 100, "component-constructor-takes-another-component": 100, "auto-iteration-mode-rule-checked": 2000, "driver-station-changed-mid-iteration": 300},
+            "falsy-component": 100, "loop-period-set-on-the-instance": 100, "use_teleop_in_autonomous-given-as-1": 50,
+            "component-constructor-takes-another-component": 100, "auto-iteration-mode-rule-checked": 2000, "driver-station-changed-mid-iteration": 300},
     "C06": {"transition:teleop->auto": 20, "transition:auto->teleop": 20, "transition:teleop->disabled": 30,
             "transition:disabled->teleop": 30, "transition:auto->test": 10, "setup-checked": 300, "lifecycle-fault-swallowed": 30, "statemachine-component": 100, "end:teleop": 10, "end:auto": 10,
             "end:disabled": 10, "end:test": 10, "robot-without-some-mode-hooks": 100,
-            "hooks-that-are-not-plain-methods": 100, "mode-named-like-a-component": 20, "falsy-component": 100,
+            "hooks-that-are-not-plain-methods": 100, "component-derived-from-MagicComponent-through-a-base-class": 100, "mode-named-like-a-component": 20, "falsy-component": 100,
             "driver-station-changed-mid-iteration": 300},
     "C07": {"swallowed:execute": 20, "swallowed:on_enable": 10, "swallowed:on_disable": 10, "swallowed:robotPeriodic": 10,
             "swallowed:teleopPeriodic-in-auto": 5, "swallowed:feedback": 10, "swallowed:mode.on_iteration": 5,
@@ -126,6 +127,8 @@ def gen_case(rng, pid, uid):
             c["eq_all"] = True
         if not c.get("is_sm") and rng.random() < 0.2:
             c["hook_kind"] = rng.choice(["static", "partial"])
+        if not c.get("is_sm") and rng.random() < 0.2:
+            c["magic_component"] = True
         for rr in c["resets"]:
             if not rr["inherited"] and rng.random() < 0.2:
                 rr["ctor_value"] = rng.choice([9, "ctor", True, 2.5])
@@ -185,6 +188,8 @@ def gen_case(rng, pid, uid):
     spec = {"uid": uid, "pid": pid, "period_us": period, "teleop_in_auto": rng.random() < 0.5, "fms": False,
             "robot_classes": robot_classes, "components": comps, "robot_feedbacks": robot_fbs, "modes": modes,
             "history": hist, "disabled_flags": dflags, "super_robot_periodic": rng.random() < 0.3, "plan": {}}
+    spec["period_on_instance"] = rng.random() < 0.2
+    spec["teleop_in_auto_as_int"] = rng.random() < 0.3
     if rng.random() < (0.4 if pid == "C07" else 0.1):
         # some periodic methods wrap their body in `with self.consumeExceptions():` and carry on after the block
         spec["consume_hooks"] = sorted(rng.sample(["disabledPeriodic", "teleopPeriodic", "testPeriodic"], rng.choice([1, 2, 3])))
@@ -295,7 +300,7 @@ def _gen_fb(rng, fbnames, j, uid):
     hint = rng.choice(HINTS)
     return {"name": name, "key": key, "hint": hint, "variant": rng.randrange(5),
             "nohint_kind": rng.choice(["float", "bool", "str", "int"]),
-            "fn_name": rng.choice([None, None, None, None, None, "wrapper", "<lambda>"]),
+            "fn_name": rng.choice([None, None, None, None, None, "wrapper", "<lambda>"]), "parens": rng.random() < 0.3,
             "same_object": bool(hint and hint.endswith("[]") and rng.random() < 0.4),
             "string_hint": bool(hint) and rng.random() < 0.3}
 
@@ -1024,6 +1029,12 @@ def run_case(spec, acc):
     if any(c.get("eq_all") and (c.get("same_class_as") or any(o.get("same_class_as") == n for o in cs))
            for n, c in spec["components"].items()):
         V.ev("two-components-comparing-equal")
+    if any(c.get("magic_component") for c in cs):
+        V.ev("component-derived-from-MagicComponent-through-a-base-class")
+    if spec.get("period_on_instance"):
+        V.ev("loop-period-set-on-the-instance")
+    if spec.get("teleop_in_auto") and spec.get("teleop_in_auto_as_int"):
+        V.ev("use_teleop_in_autonomous-given-as-1")
     if any(c.get("hook_kind") for c in cs):
         V.ev("hooks-that-are-not-plain-methods")
     if any(c.get("ctor_inject") for c in cs):
